@@ -1,26 +1,34 @@
 """C11 — whatever the indexer tokenizes, the query language can find.
 
-Spec: Tokenize.tla.  Values are sequences of character classes (20 classes: ASCII lower/upper/digit, '_', '*',
+Spec: Tokenize.tla.  Values are sequences of character classes (24 classes: ASCII lower/upper/digit, '_', '*',
 separators, '/', the three quote characters, backslash, non-ASCII letters with same-width and different-width lower
-case, non-ASCII digits/numbers/symbols, invalid byte).  The module transcribes the index side (bulk indexer +
-keyword/path/text tokenizers at BYTE level, with size limits, partial indexing, case folding) and the query side
-(SeqQL lexer for every literal style, parseSeqQLKeyword / parseSeqQLText, term matching) and states, independently
-of both, which own-content queries the property demands to succeed.  TLC
-  (a) decides at class level OwnContentFindsIt, NoUnproducibleToken, RenderLexRoundTrip, LowerShortcutSound and
-      DeviationIsExact (the one place where the transcribed implementation misses a demanded hit: a rune cut by partial
-      indexing in a case-sensitive keyword/path token) for every state of the scope (exhaustive small scopes + seeded
-      -simulate for values of 3-5 characters), and
+case, non-ASCII digits/numbers/symbols of 2 and 3 bytes, 4-byte letters (uncased / cased), digits and symbols, invalid
+byte).  The module transcribes the mapping conversion (seq/mapping.go: the DECLARED mapping - old `type:` form or
+`types:` list, field at top level or inside an object / tags / nested element, single- or multi-type - is converted
+into the map both sides read), the index side (bulk indexer incl. decodeTags and nested metas + keyword/path/text
+tokenizers at BYTE level, with size limits, partial indexing with runeAlignedCut, case folding) and the query side
+(type lookup in the converted map, SeqQL lexer for every literal style, parseSeqQLKeyword / parseSeqQLText, term
+matching) and states, independently of all three, which own-content queries the property demands to succeed.  TLC
+  (a) decides at class level OwnContentFindsIt, NoUnproducibleToken, RenderLexRoundTrip, LowerShortcutSound, NoCutRune
+      (partial indexing cuts between characters of every width 1..4 wherever the limit falls) and CutIgnoresIvKind for
+      every state of the scope (exhaustive small scopes + seeded -simulate for values of 3-5 characters); two mutants of
+      the specification (look-back of the cut one byte short; main type of a multi-type field titled with the bare
+      name) must be rejected, and
   (b) emits every state as a case; the Go driver `tokenize` picks concrete characters per class (seeded palette),
-      takes the tokens from the REAL bulk.Ingestor, builds every query from the units TLC rendered, parses it with
-      the REAL parser.ParseSeqQL and decides the match with the REAL pattern.Search; a sub-sample goes end to end
-      through a real store (active and sealed fraction, GrpcV1.Search)."""
+      writes the declared mapping as YAML and converts it with the REAL seq.ReadMapping, takes the tokens from the REAL
+      bulk.Ingestor, builds every query from the units TLC rendered, parses it with the REAL parser.ParseSeqQL and
+      decides the match with the REAL pattern.Search; a sub-sample goes end to end through a real store (active and
+      sealed fraction, GrpcV1.Search)."""
 import json
 import os
 import vlib
 
 LEVEL = "model_checking"
 
-INVS = "OwnContentFindsIt, NoUnproducibleToken, RenderLexRoundTrip, LowerShortcutSound, DeviationIsExact"
+INVS = "OwnContentFindsIt, NoUnproducibleToken, RenderLexRoundTrip, LowerShortcutSound, NoCutRune, CutIgnoresIvKind"
+# mutants of the specification TLC must reject (the invariants are not vacuous for the cut / the mapping conversion)
+MUTANTS = [("Tokenize_mut_lookback.cfg", "runeAlignedCut looking back UTFMax-2 bytes"),
+           ("Tokenize_mut_title.cfg", "main type of a multi-type field titled with the element's own name")]
 
 
 def run(ctx):
@@ -32,8 +40,10 @@ def run(ctx):
                 ("quote3", "Tokenize_quote3.cfg", 0, 0, 2, 20),
                 ("sim", "Tokenize_sim.cfg", 900, 8, 2, 10)]
     else:
-        plan = [("named2", "Tokenize_named2.cfg", 0, 0, 0, 0),      # the four invariants by name, no emission
+        plan = [("named2", "Tokenize_named2.cfg", 0, 0, 0, 0),      # the invariants by name, no emission
                 ("full2", "Tokenize_full2.cfg", 0, 0, 4, 10),
+                ("wide3", "Tokenize_wide3.cfg", 0, 0, 2, 200),
+                ("wide4", "Tokenize_wide4.cfg", 0, 0, 2, 400),
                 ("case3", "Tokenize_case3.cfg", 0, 0, 3, 60),
                 ("quote3", "Tokenize_quote3.cfg", 0, 0, 3, 20),
                 ("full3a", "Tokenize_full3a.cfg", 0, 0, 2, 200),
@@ -43,8 +53,13 @@ def run(ctx):
                 ("quote4", "Tokenize_quote4.cfg", 0, 0, 2, 50),
                 ("sim", "Tokenize_sim.cfg", 20000, 12, 3, 40)]
     tot = {"cases": 0, "evals": 0, "nontrivial": 0}
-    extra = {"tokdiff": 0, "exempt_probes": 0, "exempt_found": 0, "e2e_docs": 0, "e2e_queries": 0, "styles": {}}
+    extra = {"tokdiff": 0, "mapdiff": 0, "exempt_probes": 0, "exempt_found": 0, "e2e_docs": 0, "e2e_queries": 0, "styles": {}}
     table_path = os.path.join(ctx.scratch, "tokenize-table.json")
+    for cfg, what in MUTANTS:
+        r = vlib.run_tlc(ctx, "Tokenize.tla", cfg, timeout=600, tags=("FAILED",))
+        if r.violated != "CheckAndEmit" or not r.cases:
+            raise vlib.Infra("TLC accepts the mutant %s (%s): the invariants of Tokenize.tla are vacuous there" % (cfg, what))
+    ctx.cov["spec_mutants_rejected"] = [c for c, _ in MUTANTS]
     for label, cfg, sim, simw, reps, e2e in plan:
         cf = os.path.join(ctx.scratch, "tok-%s.jsonl" % label)
         kw = {}
@@ -76,16 +91,12 @@ def run(ctx):
             what = m.get("what", "")
             if what == "crash":
                 sig = "tokenize:crash"
-            elif m.get("gap"):
-                # deviation D1 of Tokenize.tla: partial indexing cuts a multi-byte rune of a case-sensitive keyword/path value
-                cfgd = m.get("cfg") or {}
-                sig = "tokenize:cutrune:%s:%s" % ("token" if what.startswith("token") else "query", cfgd.get("typ", "-"))
             elif what.startswith("e2e"):
                 sig = "tokenize:e2e:%s:%s:%s" % (m.get("kind"), m.get("style"), m.get("form"))
             else:
                 cfgd = m.get("cfg") or {}
-                sig = "tokenize:%s:%s:%s:%s:cs=%s" % (what[:40], m.get("kind", "-"), m.get("style", "-"),
-                                                       cfgd.get("typ", "-"), cfgd.get("cs", "-"))
+                sig = "tokenize:%s:%s:%s:%s:%s:cs=%s" % (what[:40], m.get("kind", "-"), m.get("style", "-"),
+                                                          cfgd.get("shape", "-"), cfgd.get("typ", "-"), cfgd.get("cs", "-"))
             ctx.violation(sig, m, what=what)
         with open(cf) as fh:
             for i, ln in enumerate(fh):
@@ -103,18 +114,25 @@ def run(ctx):
     ctx.cov["e2e_documents"] = extra["e2e_docs"]
     ctx.cov["e2e_queries"] = extra["e2e_queries"]
     ctx.cov["model_vs_real_token_list_disagreements"] = extra["tokdiff"]
+    ctx.cov["model_vs_real_converted_mapping_disagreements"] = extra["mapdiff"]
     # probes the property does not demand (invalid byte in a case-sensitive keyword/path token; empty text value): counted only
     ctx.cov["undemanded_probe_queries"] = extra["exempt_probes"]
     ctx.cov["undemanded_probe_queries_that_found_the_document"] = extra["exempt_found"]
     ctx.cov["rule"] = (
-        "one case per TLC state (value as class sequence, mapping shape flat/object member/multi-type, type keyword/text/path/exists, "
+        "one case per TLC state (value as class sequence; declared mapping: field at top level or member of an object / tags / nested "
+        "element, single-type in the old `type:` or the `types:` form or multi-type text+keyword+path with the main type first or last; "
+        "type keyword/text/path/exists, "
         "case-sensitive on/off, MaxTokenSize and per-field size at EVERY byte position 1..len and unlimited, partial indexing on/off). "
-        "Exhaustive: all sequences of <= 2 of the 20 classes in every shape; length 3 over the quoting alphabet {lo,st,sp,dd,dq,sq,bt,bs}"
-        + ("" if quick else "; thorough: length 3 over the case/width alphabet {lo,up,sl,nu,d2,d3,iv}, all length-3 sequences over 20 "
-        "classes (flat with every limit; object/multi), length 4 over the two sub-alphabets") + "; seeded -simulate: random values of length "
+        "Exhaustive: all sequences of <= 2 of the 24 classes (widths 1-4 bytes) in every shape; length 3 over the quoting alphabet "
+        "{lo,st,sp,dd,dq,sq,bt,bs}"
+        + ("" if quick else "; thorough: length 3 over the width alphabet {lo,up,sl,nl,d3,l4,u4,s4,iv} and length 4 over {lo,sl,d3,l4,u4,s4} "
+        "with every limit, length 3 over the case/width alphabet {lo,up,sl,nu,d2,d3,iv}, all length-3 sequences over the 20 classes of "
+        "width <= 3 (flat with every limit; every container / multi shape), length 4 over the two sub-alphabets")
+        + "; seeded -simulate: random values of length "
         "3, 4 and 5 over all classes with a random configuration incl. word limit x field limit. Each case is instantiated with `reps` "
         "seeded palette strings; every probe is asked in every admissible style (double/single/back-quoted, bare, U+FFFD-substituted). "
-        "TLC checks the four invariants in one pass per state (CheckAndEmit; by name in Tokenize_named2.cfg, thorough tier). "
+        "TLC checks the six invariants in one pass per state (CheckAndEmit; by name in Tokenize_named2.cfg, thorough tier) and must "
+        "reject the two mutant cfgs. The mapping every real component reads is the one the real seq.ReadMapping makes of the declared one. "
         "evaluations = real ParseSeqQL+pattern.Search runs; non-trivial = case with more demanded content queries than existence queries; "
         "every k-th case also runs through a real store (e2e_documents, each query on the active and the sealed fraction).")
     ctx.assumptions += [
@@ -123,11 +141,14 @@ def run(ctx):
         "lower case = Unicode simple case mapping per rune (Go unicode.ToLower); the palette carries the lower forms as data",
         "nothing is asserted for an invalid UTF-8 byte OF THE DOCUMENT inside a case-sensitive keyword/path token: no query can carry "
         "the raw byte (DESIGN 7/C11); the outcome of those probes is only counted (undemanded_probe_queries). A rune of a valid "
-        "document cut by partial indexing is NOT exempt: the demand is met by the byte prefix or by the whole-rune prefix",
+        "document cut by partial indexing is NOT exempt: the demand is met by the byte prefix or by the whole-rune prefix "
+        "(the repaired code, like the transcription, indexes the whole-rune prefix: NoCutRune)",
         "the empty text value and words longer than MaxTokenSize are not demanded to be findable (the property speaks of indexed words)",
         "unquoted style: the letters n/N are left out of the ASCII palette because a bare value `in` is the in(...) keyword",
         "escapes other than \\\\, \\<quote>, \\* and the lenient keep-the-backslash path of unquotePrefix are outside the model "
-        "(the renderer never produces them); array/object/null JSON values, tags and nested mappings are not covered",
+        "(the renderer never produces them); array/object/null JSON leaf values are not covered; a tags / nested element is "
+        "covered with string-valued members (one nested element per document, found = one of its metas satisfies the query); "
+        "a mapping item that has both `types:` and a container type, and containers inside containers, are not covered",
         "tokens are read from the metas the real bulk.Ingestor passes to its StorageClient; the end-to-end sub-sample forwards the "
         "same bytes to GrpcV1.Bulk like a single-store SeqDBClient",
         "mismatch between the model's token list and the real one is reported as a diagnostic number only "
@@ -146,7 +167,7 @@ def run_cases_x(ctx, drv, args, cf, label, extra):
         with open(side) as fh:
             for ln in fh:          # one line per driver process (run_cases feeds the file in chunks)
                 s = json.loads(ln)
-                for k in ("tokdiff", "exempt_probes", "exempt_found", "e2e_docs", "e2e_queries"):
+                for k in ("tokdiff", "mapdiff", "exempt_probes", "exempt_found", "e2e_docs", "e2e_queries"):
                     extra[k] += int(s.get(k, 0))
                 for k, v in (s.get("styles") or {}).items():
                     extra["styles"][k] = extra["styles"].get(k, 0) + v
